@@ -467,9 +467,14 @@ class Engine:
         ctx.cov["traces_validated_against_impl"] += len(recs)
         if ctx.tier == "thorough" and ctx.only is None and len(recs) > 1000:
             cov = tlcmod.action_coverage(res)
-            missing = [a for a in TRACE_ACTIONS if not any(k.split(".")[-1] == a and v > 0 for k, v in cov.items())]
-            if missing:
-                raise tlcmod.MachineryError("trace actions never taken: %s" % missing)
+            taken = {a: sum(v for k, v in cov.items() if k.split(".")[-1] == a) for a in TRACE_ACTIONS}
+            # TLC 1.8 attributes the successors of the three event disjuncts (TraceStart / TraceLoop / TraceDone, also
+            # used under ENABLED in Reject) to one of them in its -coverage table, so the self-check is on their sum:
+            # every history takes at least one event step
+            if sum(taken.values()) < len(recs):
+                raise tlcmod.MachineryError("trace actions taken %s for %d histories" % (taken, len(recs)))
+            if any(v == 0 for v in taken.values()):
+                ctx.note("per-action coverage of the trace specification as TLC reports it: %s" % taken)
         refused_at = {}
         seen = set()
         for e in res.errors:
